@@ -1,8 +1,27 @@
-(* Tree/Copy.v — model of AutosarModel::duplicate (autosarmodel.rs).  (Deep copy itself is in Tree/Ops.v.)
-   STUB: the interface below is fixed (Tree/Script2.v and the drivers use it); the body is a placeholder.
+(* Tree/Copy.v — model of AutosarModel::duplicate (autosarmodel.rs), statement by statement.
+   (Deep copy itself — deep_copy, make_unique_item_name, create_copied_sub_element[_at/_inner] — is in Tree/Ops.v.)
+
+     let copy = Self::new();                                              new_model
+     for orig_file in self.files() {                                      m_files of the original, Vec order
+         let new_file = copy.create_file(filename, orig_file.version())?; m_create_file (new file id = |w_files|)
+         new_file.xml_standalone = orig_file.xml_standalone;              set_file
+         filemap.insert(filename, new_file.downgrade()); }                assoc_insert (HashMap<PathBuf,_>: by name)
+     for element in self.root_element().sub_elements() {                  the CElem items of the root's content
+         copy.root_element().create_copied_sub_element(&element)?; }      Ops.e_create_copied_sub_element (copy's root:
+                                                                          model(), min_version() of the COPY)
+     for ((_, o), (_, c)) in zip(self.elements_dfs(), copy.elements_dfs()) {   two pre-order walks, roots included,
+         c.file_membership.clear();                                            zip stops at the shorter one
+         for f in o.file_membership (upgrade) { if let Some(cf) = filemap.get(&f.filename()) { c.file_membership.insert(cf) } } }
+     Ok(copy)
+
+   An error (`?`) leaves the half-built copy behind: [m_duplicate_body].  The Rust then DROPS the copy (it is a local
+   that is not returned), so the half-built model and its files are unobservable; [m_duplicate] models the drop by
+   truncating w_models / w_files to their previous lengths (the copy and its files are the last entries: nothing else
+   runs in between).  The nodes of the dropped copy stay allocated but unreachable (no handle to them can exist).
    MODEL ONLY: definitions, no proofs. *)
 From AV Require Import Base.Bytes Base.Outcome Hash.HashModel Tree.Heap Tree.Ops.
 Open Scope string_scope.
+Open Scope list_scope.
 Open Scope N_scope.
 
 Section Copy.
@@ -12,7 +31,79 @@ Variable check_fn : N -> list N -> res bool.
 Variable LATEST : N.
 Variable root_attrs : list (N * cdata).
 
+Definition set_standalone (f : file) (s : option bool) : file := mkFile (f_model f) (f_name f) (f_version f) s.
+
+(* the first loop: one new file per file of the original; returns the filemap (name -> new file id) *)
+Fixpoint dup_files (c : N) (files : list N) (filemap : list (list N * N)) : W (list (list N * N)) :=
+  match files with
+  | [] => wret filemap
+  | f :: rest =>
+    (do fl <- get_file f;
+     do nf <- m_create_file T c (f_name fl) (f_version fl);
+     do nfl <- get_file nf;
+     set_file nf (set_standalone nfl (f_standalone fl));;
+     dup_files c rest (assoc_insert (f_name fl) nf filemap))%W
+  end.
+
+(* the second loop: copies of the sub-elements of the original's root, appended to the copy's root *)
+Fixpoint dup_children (croot : id) (items : list citem) : W unit :=
+  match items with
+  | [] => wret tt
+  | CElem e :: rest => (do _ <- e_create_copied_sub_element T LATEST croot e; dup_children croot rest)%W
+  | CData _ :: rest => dup_children croot rest
+  end.
+
+(* the membership of one copied element: the original's LOCAL set translated file by file through the filemap *)
+Fixpoint translate_files (w : world) (filemap : list (list N * N)) (fs : list N) : list N :=
+  match fs with
+  | [] => []
+  | f :: rest =>
+    match nth_opt (w_files w) (N.to_nat f) with
+    | Some fl => match assoc_get (f_name fl) filemap with
+                 | Some nf => set_add nf (translate_files w filemap rest)
+                 | None => translate_files w filemap rest
+                 end
+    | None => translate_files w filemap rest          (* Weak::upgrade() fails: not reached, files are never freed *)
+    end
+  end.
+
+(* the third loop: zip of the two pre-order walks *)
+Fixpoint dup_membership (filemap : list (list N * N)) (oids cids : list id) : W unit :=
+  match oids, cids with
+  | o :: orest, c :: crest =>
+    (do on <- get_node o;
+     do w <- wget;
+     modify_node c (fun x => set_files x (translate_files w filemap (n_files on)));;
+     dup_membership filemap orest crest)%W
+  | _, _ => wret tt
+  end.
+
+(* AutosarModel::duplicate up to (and including) an early return by `?`: the half-built copy stays in the world *)
+Definition m_duplicate_body (m : N) : W N :=
+  (do x <- get_model m;
+   do c <- new_model T root_attrs;
+   do filemap <- dup_files c (m_files x) [];
+   do rn <- get_node (m_root x);
+   do cx <- get_model c;
+   dup_children (m_root cx) (n_content rn);;
+   do w <- wget;
+   do oids <- dfs_ids (fuel_of w) (m_root x);
+   do cids <- dfs_ids (fuel_of w) (m_root cx);
+   dup_membership filemap oids cids;;
+   wret c)%W.
+
+(* drop(copy) after an error: the model and its files disappear; allocated nodes stay (unreachable) *)
+Definition drop_models_files (nm nf : nat) (w : world) : world :=
+  mkWorld (w_nodes w) (w_next w) (firstn nf (w_files w)) (firstn nm (w_models w)).
+
 (* AutosarModel::duplicate -> the new model id *)
 Definition m_duplicate (m : N) : W N :=
-  let _ := (T, tab_el, tab_en, check_fn, LATEST, root_attrs) in wpanic "UNMODELLED: duplicate".
+  let _ := (tab_el, tab_en, check_fn) in
+  fun w =>
+    match m_duplicate_body m w with
+    | Val (OK c, w') => Val (OK c, w')
+    | Val (ER e, w') => Val (ER e, drop_models_files (List.length (w_models w)) (List.length (w_files w)) w')
+    | Pan s => Pan s
+    | Fuel => Fuel
+    end.
 End Copy.
